@@ -254,7 +254,7 @@ var c06alphabet = []string{"'", `"`, `\`, "n", "\n", "\r", "\x00", " ", ".", "/"
 
 func checkC06(c *Ctx) (string, bool, []string) {
 	r := c.R
-	rule := "names that differ from an ASCII name only by a letter whose case-folded form is ASCII (KELVIN SIGN, LONG S, dotted / dotless I), classified in both orders before anything else; every Unicode scalar value as a one-rune string and embedded as a<r>b through QuoteString/QuoteIdent/IdentNeedsQuotes vs the scanner; all strings of length <=3 (<=4 thorough) over a 19-symbol hostile alphabet through helpers and 14 statement slots; all keywords in 3 casings; multi-part names; random strings to length 64; values of 14 to 8194 characters at and around powers of two (bare-identifier characters only, with one hostile character, runs of quotes, backslashes and multi-byte characters). Non-trivial = string needs escaping or quoting, or is inexpressible; distinct by (slot, string)."
+	rule := "names that differ from an ASCII name only by a letter whose case-folded form is ASCII (KELVIN SIGN, LONG S, dotted / dotless I), classified in both orders before anything else; every Unicode scalar value as a one-rune string and embedded as a<r>b through QuoteString/QuoteIdent/IdentNeedsQuotes vs the scanner; all strings of length <=3 (<=4 thorough) over a 19-symbol hostile alphabet through helpers and 14 statement slots; all keywords in 3 casings; multi-part names; random strings to length 64; values of 14 to 8194 characters and of 64 KB, 1 MB and 2 MB at and around powers of two (bare-identifier characters only, with one hostile character, runs of quotes, backslashes and multi-byte characters). Non-trivial = string needs escaping or quoting, or is inexpressible; distinct by (slot, string)."
 	assume := []string{"expressible = valid UTF-8 without NUL or CR", "for inexpressible values a parse error or any single literal in the slot is acceptable"}
 	if c.Replay != nil {
 		local := map[string]int64{}
@@ -448,6 +448,11 @@ func checkC06(c *Ctx) (string, bool, []string) {
 			k := rg.Intn(n)
 			longs = append(longs, m[:k]+c06alphabet[rg.Intn(len(c06alphabet))]+m[k+1:], strings.Repeat("é", n), strings.Repeat("'", n), strings.Repeat(`"`, n), strings.Repeat(`\`, n))
 		}
+	}
+	// beyond a megabyte (a size at which hardening limits are typically set):
+	// the value, a quote inside it, and statement text behind it
+	for _, n := range []int{65535, 65536, 1<<20 - 1, 1 << 20, 1<<20 + 1, 1<<21 + 3} {
+		longs = append(longs, strings.Repeat("m", n)+` OR 1 = 1 --`, strings.Repeat("a", n)+`' OR '1' = '1`, strings.Repeat("q", n)+`" WHERE time > 0 --`)
 	}
 	mon.Parallel(len(longs), c.Workers, func(i int) {
 		local := map[string]int64{}
